@@ -281,7 +281,7 @@ def run_impl(zone, w: World, case, msgs, wires):
     res = "ok"
     done_at = None
     signal.signal(signal.SIGALRM, _alarm)
-    signal.alarm(10)
+    signal.alarm(3)
     try:
         if case.get("via") == "sock":
             trace = None
@@ -422,7 +422,7 @@ def eval_xfr(ctx: Ctx, c: dict, collect=None):
     # ---- the property itself, on the implementation
     what = f"{c['zk']}{'/rel' if c['rel'] else ''} {req['rdtype']}{'/udp' if req['udp'] else ''} serial={req['serial']} fault={fault}: "
     if res == "hang":
-        ctx.fail("C13/run/hang", what + "the transfer did not return within 10 s (writer admission blocked?)", rep)
+        ctx.fail("C13/run/hang", what + "the transfer did not return within 3 s (writer admission blocked?)", rep)
     if res.startswith("err:Foreign"):
         ctx.count("foreign." + res)
     if res != "ok":
@@ -883,6 +883,11 @@ def fault_cases(rng, st, every=True):
         s = list(recs)
         s[i] = [rng.choice([f"moved.{o}", "moved.other.test.", f"www.{o}"]), recs[i][1], recs[i][2], recs[i][3]]
         yield emit(s, f"owner@{i}")
+    # a whole difference sequence is missing (the chain jumps): the next SOA does not continue from our serial
+    if true_ixfr and len(st["delranges"]) >= 2:
+        starts = [a - 1 for a, _ in st["delranges"]] + [L - 1]
+        for k in range(1, len(st["delranges"])):
+            yield emit(recs[:starts[k]] + recs[starts[k + 1]:], f"drop-step@{k}", "must-raise", "FormError")
     # per message faults: rcode and question
     for _ in range(2 if every else 1):
         sizes = [L] if udp else rand_sizes(rng, L, empties=False)
@@ -964,7 +969,7 @@ def detect_variant(ctx: Ctx, witness: dict):
 
 def generate(ctx: Ctx, scale: float, rng, budget_s: float):
     n = lambda q: max(1, int(q * scale))
-    for _ in range(n(150)):
+    for _ in range(n(300)):
         c = gen_scmp(rng)
         ctx.case(case_key(c), sample=c)
         eval_case(ctx, c)
@@ -973,7 +978,7 @@ def generate(ctx: Ctx, scale: float, rng, budget_s: float):
         ctx.case(case_key(c), sample=c)
         eval_case(ctx, c)
     # short streams: every chunking
-    for _ in range(n(10)):
+    for _ in range(n(24)):
         st = gen_stream(rng, small=True)
         if len(st["recs"]) <= 9:
             for c in valid_cases(rng, st, 0, exhaustive=True):
@@ -982,7 +987,7 @@ def generate(ctx: Ctx, scale: float, rng, budget_s: float):
             ctx.count("streams.exhaustive-chunkings")
     # streams: random chunkings + every single fault at every position
     i = 0
-    target = n(70)
+    target = n(170)
     while i < target and ctx.elapsed() < budget_s:
         st = gen_stream(rng, small=(i % 3 == 0))
         i += 1
